@@ -112,7 +112,10 @@ function genOpExpr (rng, ctx, d, label, nested) {
     if (d > 0 && P.known && rng.chance(1, 8)) {
       // a function expression passed as an argument inside the instrumented expression, called back
       // synchronously; its parameter default holds an instrumented operation of its own
-      return { t: 'fnarg', site: P.nextSite++, def: genOpExpr(rng, { ...ctx, f: { isGen: false, isAsync: false } }, 0, 'param-default:function-expression-argument', true) }
+      // when the surrounding expression is itself in a context whose temporaries are shared across
+      // activations (a non-arrow parameter default, an instance field), so are this default's: plain known label
+      const sharedCtx = ['param-default:function', 'class-field:instance', 'param-default:function-expression-argument'].includes(label)
+      return { t: 'fnarg', site: P.nextSite++, def: genOpExpr(rng, { ...ctx, f: { isGen: false, isAsync: false } }, 0, sharedCtx ? 'param-default:function' : 'param-default:function-expression-argument', true) }
     }
     if (d > 0 && rng.chance(1, 3)) return genOpExpr(rng, ctx, d - 1, label, true)
     if (f.isGen && rng.chance(1, 3)) return { t: 'yield', site: P.nextSite++ }
